@@ -438,6 +438,18 @@ class ContractInterp(Interp):
         self.havoc(c.modifies, env)
         for nm, (t, _w) in c.fresh.items():
             env[nm] = mk_sym(st, self.tenv, t, st.fresh_name(nm))
+        rt = self.result_type_for(c)
+        if c.result_expr is not None:
+            result = self.eval_spec_expr(c.result_expr, env, old)
+            if isinstance(result, VOpt) and rt[0] != "opt":
+                result = result.val
+        elif rt == ("none",):
+            result = VNone
+        else:
+            result = mk_sym(st, self.tenv, rt, st.fresh_name(f"ret.{sname}"))
+            for fld, fexpr in c.result_fields.items():
+                self.set_field(result, fld, self.eval_spec_expr(fexpr, env, old))
+        env["result"] = result
         emitted = {}
         for eff in c.effects:
             lst, ev = eff[0], eff[1]
@@ -455,17 +467,6 @@ class ContractInterp(Interp):
             emitted.setdefault(lst, []).append(evv)
         for g in set(emitted) | {e[0] for e in c.effects} | {g for g, t in c.ghost_init.items() if t == "events"}:
             env[g] = VTuple(emitted.get(g, []))
-        rt = self.result_type_for(c)
-        if c.result_expr is not None:
-            result = self.eval_spec_expr(c.result_expr, env, old)
-            if isinstance(result, VOpt) and rt[0] != "opt":
-                result = result.val
-        elif rt == ("none",):
-            result = VNone
-        else:
-            result = mk_sym(st, self.tenv, rt, st.fresh_name(f"ret.{sname}"))
-            for fld, fexpr in c.result_fields.items():
-                self.set_field(result, fld, self.eval_spec_expr(fexpr, env, old))
         env["result"] = result
         if c.ensures and not st.feasible(z3.BoolVal(True)):
             raise PathInfeasible()      # the path was already infeasible before this call
